@@ -127,6 +127,10 @@ KINDS = [
     # request methods outside the usual seven, another one at every repetition: served by an ANY route / refused with 405
     ('verbvar', 'MV{i}', '/anyverb', {}),
     ('verbvar405', 'QX{i}', '/ok', {}),
+    # a body above the limit refused while the ANSWER is produced (a generator handler reads it lazily) / refused inside a handler
+    # that catches the error itself and answers on its own
+    ('413lazy', 'POST', '/lazybody', {'body': b'0123456789abcdef' * 14}),
+    ('413own', 'POST', '/ownbody', {'body': b'0123456789abcdef' * 14, 'qs': 'attempt={i}'}),
 ]
 NK = len(KINDS)
 
@@ -244,6 +248,17 @@ def fresh_app():
     app.route('/logout', 'GET', logout)
     app.route('/bye', 'GET', lambda: prepared)
     app.route('/anyverb', 'ANY', lambda: 'any verb: ' + app.request.method)
+
+    def lazybody():
+        yield app.request.body.read()
+
+    def ownbody():
+        try:
+            return app.request.body.read()
+        except om.HTTPError as e:
+            return 'refused politely: %s' % e.status_code
+    app.route('/lazybody', 'POST', lazybody)
+    app.route('/ownbody', 'POST', ownbody)
     dbg = om.Ombott({'debug': True})
 
     def boom():
